@@ -32,6 +32,8 @@ fn stmt_text(n: usize) -> String {
 #[derive(Default)]
 struct Model {
     frames: Vec<Value>,
+    /// the node "forgets" the statement: the next EXECUTE is answered UNPREPARED (once)
+    evict_next: bool,
 }
 
 impl Model {
@@ -53,6 +55,13 @@ impl Model {
             }
             7 | 10 | 13 => {
                 self.frames.push(json!({"opcode": req.opcode, "flags": req.flags, "body": req.raw_body}));
+                if req.opcode == 10 && self.evict_next {
+                    self.evict_next = false;
+                    let id = req.prepared_id.clone().unwrap_or_default();
+                    let mut extra = vec![(id.len() >> 8) as u8, id.len() as u8];
+                    extra.extend_from_slice(&id);
+                    return Action::Reply(Reply::Error { code: 0x2500, message: "scripted unprepared".into(), extra });
+                }
                 let is_select = req.query.as_deref().map(|q| q.starts_with("SELECT")).unwrap_or(false) || (req.opcode == 10 && req.values.is_empty());
                 if is_select {
                     Action::Reply(Reply::Rows { cols: vec![("c0".into(), blob)], ks: "ks".into(), table: "t".into(), rows: vec![vec![Some(vec![1, 2])]], paging_state: None, no_metadata: false, new_metadata_id: None })
@@ -150,9 +159,38 @@ async fn run_all(inp: &str, outp: &str) -> Result<Value, String> {
         .build()
         .await
         .map_err(|e| format!("session build: {e}"))?;
-    let mut prepared = Vec::new();
+    // a second session that ASKS for compression; the node does not offer any, so nothing may be compressed
+    let session_plain = session;
+    let mut prepared_plain = Vec::new();
     for n in 0..=NVAL_MAX {
-        prepared.push(session.prepare(stmt_text(n)).await.map_err(|e| format!("prepare {n}: {e}"))?);
+        prepared_plain.push(session_plain.prepare(stmt_text(n)).await.map_err(|e| format!("prepare {n}: {e}"))?);
+    }
+    // frames the node could not read because they carry the "compressed" flag although nothing was negotiated (mock log)
+    let unnegotiated = |mock: &MockCluster| mock.log().iter().filter(|e| e["parse_error"].as_str().map_or(false, |m| m.contains("compressed frame received"))).count();
+    let built = tokio::time::timeout(Duration::from_secs(15), async {
+        let s = SessionBuilder::new()
+            .known_node(mock.contact_point(0))
+            .pool_size(PoolSize::PerHost(NonZeroUsize::new(1).unwrap()))
+            .compression(Some(scylla::frame::Compression::Snappy))
+            .build()
+            .await
+            .map_err(|e| format!("session (compression asked) build: {e}"))?;
+        let mut ps = Vec::new();
+        for n in 0..=NVAL_MAX {
+            ps.push(s.prepare(stmt_text(n)).await.map_err(|e| format!("prepare {n} (compression asked): {e}"))?);
+        }
+        Ok::<_, String>((s, ps))
+    })
+    .await;
+    let (session_c, prepared_c, c_err) = match built {
+        Ok(Ok((s, ps))) => (Some(s), ps, String::new()),
+        Ok(Err(e)) => (None, Vec::new(), e),
+        Err(_) => (None, Vec::new(), "session (compression asked): not usable after 15 s".to_string()),
+    };
+    let bad_flags = unnegotiated(&mock);
+    if session_c.is_none() && bad_flags == 0 {
+        // not explained by anything the property talks about: a harness / environment problem
+        return Err(c_err);
     }
     let input = std::fs::File::open(inp).map_err(|e| format!("open {inp}: {e}"))?;
     let mut out = std::io::BufWriter::new(std::fs::File::create(outp).map_err(|e| format!("create {outp}: {e}"))?);
@@ -171,9 +209,34 @@ async fn run_all(inp: &str, outp: &str) -> Result<Value, String> {
         let idem = sc["idem"].as_u64() == Some(1);
         let vals = cells(&sc["values"]);
         let n = vals.len().min(NVAL_MAX);
-        model.lock().unwrap().frames.clear();
+        let (session, prepared) = if sc["comp"].as_u64() == Some(1) {
+            match &session_c {
+                Some(s) => (s, &prepared_c),
+                None => {
+                    let o = json!({"id": sc["id"], "ok": 0, "err": format!("the node received {bad_flags} frames flagged compressed although no compression was negotiated; {c_err}"),
+                                   "ids": {"select": [], "insert": []}, "frames": []});
+                    writeln!(out, "{o}").map_err(|e| e.to_string())?;
+                    lines += 1;
+                    continue;
+                }
+            }
+        } else {
+            (&session_plain, &prepared_plain)
+        };
+        let pstate = || {
+            if sc["ps"][0].as_u64() == Some(1) {
+                scylla::response::PagingState::new_from_raw_bytes(sc["ps"][1].as_array().map(|a| a.iter().filter_map(|x| x.as_u64()).map(|x| x as u8).collect::<Vec<u8>>()).unwrap_or_default())
+            } else {
+                scylla::response::PagingState::start()
+            }
+        };
+        {
+            let mut m = model.lock().unwrap();
+            m.frames.clear();
+            m.evict_next = sc["evict"].as_u64() == Some(1);
+        }
         let res: Result<(), String> = match sc["kind"].as_str().unwrap_or("") {
-            k @ ("query" | "query_iter") => {
+            k @ ("query" | "query_iter" | "query_page") => {
                 let mut q = Statement::new(stmt_text(0));
                 q.set_consistency(cl);
                 q.set_serial_consistency(serial);
@@ -185,6 +248,8 @@ async fn run_all(inp: &str, outp: &str) -> Result<Value, String> {
                 }
                 if k == "query" {
                     session.query_unpaged(q, ()).await.map(|_| ()).map_err(|e| e.to_string())
+                } else if k == "query_page" {
+                    session.query_single_page(q, (), pstate()).await.map(|_| ()).map_err(|e| e.to_string())
                 } else {
                     match session.query_iter(q, ()).await {
                         Ok(pager) => match pager.rows_stream::<(Vec<u8>,)>() {
@@ -195,7 +260,7 @@ async fn run_all(inp: &str, outp: &str) -> Result<Value, String> {
                     }
                 }
             }
-            k @ ("execute" | "execute_iter") => {
+            k @ ("execute" | "execute_iter" | "execute_page") => {
                 let mut p = prepared[n].clone();
                 p.set_consistency(cl);
                 p.set_serial_consistency(serial);
@@ -207,6 +272,8 @@ async fn run_all(inp: &str, outp: &str) -> Result<Value, String> {
                 }
                 if k == "execute" {
                     session.execute_unpaged(&p, vals.clone()).await.map(|_| ()).map_err(|e| e.to_string())
+                } else if k == "execute_page" {
+                    session.execute_single_page(&p, vals.clone(), pstate()).await.map(|_| ()).map_err(|e| e.to_string())
                 } else {
                     match session.execute_iter(p, vals.clone()).await {
                         Ok(pager) => match pager.rows_stream::<(Vec<u8>,)>() {
@@ -244,9 +311,10 @@ async fn run_all(inp: &str, outp: &str) -> Result<Value, String> {
         lines += 1;
     }
     out.flush().map_err(|e| e.to_string())?;
-    drop(session);
+    drop(session_plain);
+    drop(session_c);
     mock.shutdown().await;
-    Ok(json!({"cmd": "c09-e2e", "lines": lines}))
+    Ok(json!({"cmd": "c09-e2e", "lines": lines, "compressed_unnegotiated": bad_flags}))
 }
 
 pub fn cmd_e2e(args: &[String]) -> i32 {
